@@ -10,6 +10,7 @@ import (
 	"verifharness/internal/c14"
 	"verifharness/internal/c15"
 	"verifharness/internal/c16"
+	"verifharness/internal/c17"
 	"verifharness/internal/c19"
 	"verifharness/internal/common"
 )
@@ -21,12 +22,14 @@ var subs = map[string]sub{
 	"c14": c14.Run,
 	"c15": c15.Run,
 	"c16": c16.Run,
+	"c17": c17.Run,
 	"c19": c19.Run,
 }
 
 var gens = map[string]func(outDir string) error{
-	"registry": c06.GenRegistry,
+	"registry":  c06.GenRegistry,
 	"ruletable": c15.GenRuleTable,
+	"ir":        c17.GenIR,
 }
 
 func main() {
